@@ -431,7 +431,8 @@ def run(prog, rep):
                 continue
             for n5 in walk_no_nested(f5.node):
                 if isinstance(n5, ast.BinOp) and isinstance(n5.op, ast.Mod):
-                    lit = isinstance(n5.left, ast.Constant) and isinstance(n5.left.value, str)
+                    from .rules_lints import literal_bound as _lb
+                    lit = _lb(f5, n5.left) is not None
                     rep.check(lit, "REC-1", "%s.%s: `%s %% ...`" % (cls0.name, fname, unparse(n5.left)[:30]), "literal format",
                               "%s.%s formats with `%s` as the format string: a %% in the quoted data raises TypeError / ValueError instead of "
                               "the ParserException" % (cls0.name, fname, unparse(n5.left)[:60]), where(f5, n5),
